@@ -85,17 +85,32 @@ def check_selectors(rep, fl, rule="R02.1"):
             if f["name"] == "shards":
                 ty = f["ty"]
     rep.check(("; %d]" % n) in ty or "; NUM_OF_SHARDS]" in ty or "; store::NUM_OF_SHARDS]" in ty, rule, fl, SM, "array length", "the shard array has NUM_OF_SHARDS = %d elements" % n, "shards has type %s but NUM_OF_SHARDS is %d" % (ty, n))
-    # len() sums every shard ; clear() clears every shard
+    # len() sums every shard: one pass over self.shards that adds read(shard).len() to the total in every round
+    # (`.iter().map(|l| l.read().len()).sum()` or a `for` loop with an accumulator)
     lb = facts.body(SM + "::len")
-    e = norm(return_expr(lb))
-    ok = is_call(e, "Iterator::sum") and is_call(e[2][0], "Iterator::map") and is_call(e[2][0][2][0], "iter") and norm(e[2][0][2][0][2][0]) == norm(F(V("self"), "shards"))
+    it = single_iteration(facts, lb)
+    e = norm(return_expr(lb)) if return_expr(lb) is not None else ("unknown",)
+    ok = it is not None and iterates(it, F(V("self"), "shards"))
     if ok:
-        ca = callable_arg(facts, lb, [t for _, t in calls_to(lb, "Iterator::map")][0], 1)
-        ok = ca is not None
-    if ok:
-        cb, p1 = ca
-        ce = norm(return_expr(cb))
-        ok = is_call(ce, "HashMap::len") and is_call(ce[2][0], "RwLock::read") and ce[2][0][2][0] == V(cb.local_name.get(p1, "arg%d" % p1))
+        fb = it.body
+        segs = sym_segment(fb, it.some, [it.nbi]) or []
+        ok = bool(segs)
+        accs = set()
+        for lits, env in segs:
+            for k_, v_ in env.items():
+                v_ = norm(v_)
+                if k_[0] == "var" and v_[0] == "bin" and v_[1] == "Add" and k_ in (v_[2], v_[3]):
+                    other_ = v_[3] if v_[2] == k_ else v_[2]
+                    oe = it.indexed(other_)
+                    if is_call(oe, "HashMap::len") and is_call(norm(oe[2][0]), "RwLock::read") and norm(oe[2][0][2][0]) == ("index", norm(F(V("self"), "shards")), ("elem",)):
+                        accs.add(k_)
+            ok = ok and len(accs) == 1 and all(norm(env.get(k_, k_)) != k_ for k_ in accs)
+        if ok:
+            acc = next(iter(accs))
+            ret = norm(fb.expand(norm(return_expr(fb)))) if return_expr(fb) is not None else None
+            l_ = fb.name_local.get(acc[1])
+            init = [norm(fb.def_expr(a_, b_, True)) for a_, b_ in fb.defs.get(l_, []) if a_ not in it.region]
+            ok = (ret == acc or norm(return_expr(fb)) == acc) and len(init) == 1 and init[0][0] == "const" and init[0][1] == 0
     rep.check(ok, "R06.6", fl, lb, "len", "len() sums the sizes of all shards", "len() is %s" % show(e))
 
 
@@ -193,7 +208,9 @@ def check_time(rep, fl):
     # now / now_with_expiration
     for m, dur in (("now", ("cstr", "std::time::Duration::ZERO")), ("now_with_expiration", V("duration"))):
         b = facts.body(TIME + "::" + m)
-        f = agg_fields(norm(return_expr(b)))
+        cf_ = ctor_fields(facts, norm(return_expr(b))) if return_expr(b) is not None else None   # the literal, or `Self::now_with_expiration(ZERO)`
+        f = cf_[1] if cf_ is not None else {}
+        f = {k_: norm(v_) for k_, v_ in f.items()}
         okd = f.get("d") == dur or (m == "now" and f.get("d", ("x",))[0] in ("cstr", "named") and "ZERO" in str(f.get("d")))
         okc = is_call(f.get("created_at", ()), "SystemTime::now")
         rep.check(okd and okc, "R03.3", fl, b, m, "%s() stamps SystemTime::now() with d = %s" % (m, show(dur)), "%s() builds %s" % (m, {k: show(v) for k, v in f.items()}))
@@ -580,6 +597,21 @@ def check_buckets(rep, fl):
         ce = in_parent_terms(facts, cb, return_expr(cb))
         ok = is_call(ce, "Add::add") and set(ce[2]) == {V(cb.local_name.get(2, "arg2")), norm(F(V("self"), "d"))}
     rep.check(ok, "R05.1", fl, ux, "unix", "unix() = whole seconds of (created_at - EPOCH + d): buckets are one second wide", "unix() is %s" % show(e))
+
+
+def check_em_remove(rep, fl, rule="R05.9"):
+    """ExpirationMap::try_remove un-files one key: it takes the key out of a bucket and never drops, clears or
+    replaces a bucket of the index (the other keys filed under the same second must stay tracked)."""
+    facts = fl.facts
+    b = facts.flat(facts.body(EM + "::try_remove"))
+    outer_mut = map_calls(b, OUTER_TY, "remove", "clear", "retain", "insert", "drain", "remove_entry", "extract_if")
+    inner_rm = [(bi, t) for bi, t in b.calls() if callee_matches(b.callee_of(t), "Bucket::remove") or
+                (b.callee_of(t).startswith("std::collections::HashMap::") and b.callee_of(t).endswith("::remove") and INNER_TY in recv_ty(t))]
+    inner_other = map_calls(b, INNER_TY, "clear", "retain", "drain")
+    ok = not outer_mut and not inner_other and all(norm(b.expand(norm(b.call_args(t)[1]))) == V("key") for _, t in inner_rm)
+    rep.check(ok, rule, fl, b, "removes one key", "try_remove(key, ..) only takes `key` out of a bucket",
+              "ExpirationMap::try_remove edits the bucket index itself (%s): the other keys filed under that second are no longer tracked and are never reclaimed"
+              % ", ".join(sorted({m for _, _, m in outer_mut + inner_other}) or ["another key"]))
 
 
 def check_em_insert(rep, fl):
@@ -1091,10 +1123,13 @@ def check_C05(rep, fl):
     check_buckets(rep, fl)
     check_em_insert(rep, fl)
     check_em_update(rep, fl)
+    check_em_remove(rep, fl)
     check_em_cleanup(rep, fl)
     check_sweeper(rep, fl)
     check_tick(rep, fl)
     check_store_writes(rep, fl)
+    import props_cache
+    props_cache.check_policy_cost(rep, fl)   # "handed to on_evict .. with its .. charged cost"
     check_single_section(rep, fl, "R05.2", [EM + "::try_insert", EM + "::try_update", EM + "::try_remove", EM + "::try_cleanup"],
                          "looking a bucket up and creating, filling or removing it")
 
